@@ -58,6 +58,10 @@ def solveShape? (a b : List Nat) : Option (List Nat) :=
   | some (_, m, n) => if m = n then torchMatmulShape? a b else none
   | none => none
 
+/-- `L (A⁻¹ R)`: the solve must be defined, then the product with the left tensor. -/
+def solveLeftShape? (a b l : List Nat) : Option (List Nat) :=
+  (solveShape? a b).bind (torchMatmulShape? l)
+
 /-- torch `x.expand(tgt)` for non-negative targets, on reversed shapes. -/
 def expandOkRev : List Nat → List Nat → Bool
   | [], _ => true
@@ -202,6 +206,21 @@ def expandMatrixGuard (a : List Nat) (sizes : List Int) : Except Err (List Int) 
 /-- base `solve` (also LowRankRootAddedDiag / KroneckerProductTriangular `solve`): `is_square`, then the full
 `_matmul_broadcast_shape` guard (the same code as `inv_quad`'s guard). -/
 def solveGuard (a b : List Nat) : Except Err (List Nat) := invQuadGuard a b
+
+/-- `solve(right_tensor, left_tensor)` of the base class, Diag, Identity, LowRankRootAddedDiag, KroneckerProductTriangular:
+the right-hand side goes through the guard first; only then `left_tensor @ result` (torch's own check). -/
+def solveLeft (a b l : List Nat) : Except Err (List Nat) :=
+  match solveGuard a b with
+  | .error e => .error e
+  | .ok s => match Spec.torchMatmulShape? l s with
+    | none => .error .shape
+    | some r => .ok r
+
+/-- what a `solve` that multiplies `left_tensor @ right_tensor` without consulting the operator would accept -/
+def solveLeftUnguarded (_a b l : List Nat) : Except Err (List Nat) :=
+  match Spec.torchMatmulShape? l b with
+  | none => .error .shape
+  | some r => .ok r
 
 /-- second half of base `expand`: the batch-target check, on reversed lists
 (old batch shape, requested batch sizes). -/
